@@ -48,7 +48,7 @@ func init() {
 			"Redis delivery itself (PUBLISH -> subscriber) is replaced by an in-process RESP server",
 		},
 		Stages: []Stage{
-			{Name: "announce", Pkg: "./pkg/station/lib", Run: "^TestVerifC10Announce$", Drivers: []string{"lib"}, Exports: []string{"cdtls"},
+			{Name: "announce", Pkg: "./pkg/station/lib", Run: "^TestVerifC10(Announce|Lifetime)$", Drivers: []string{"lib"}, Exports: []string{"cdtls", "lib"},
 				TimeoutQ: 10 * time.Minute, TimeoutT: 40 * time.Minute},
 		},
 		Post: c10Post,
@@ -414,6 +414,17 @@ type c10Record struct {
 
 	Unused uint64 `json:"unused"`
 	Active uint64 `json:"active"`
+
+	Seq    int    `json:"seq"`
+	Fam    string `json:"fam"`
+	Ops    string `json:"ops"`
+	Reg    int    `json:"reg"`
+	Holds  bool   `json:"holds"`
+	HadDup bool   `json:"haddup"`
+	Window bool   `json:"window"`
+	VT     uint64 `json:"vt"`
+	AgeAnn uint64 `json:"ageann"`
+	AgeDup uint64 `json:"agedup"`
 }
 
 // label names the message for signatures: new | update | dup-unused | dup-used | clear | shutdown-clear | stray
@@ -746,11 +757,12 @@ func c10Post(rc *RunCtx) {
 			rc.addCount("detector_keeps_session_longer_than_requested", 1)
 		}
 		rc.addCount("accepted_and_matching", 1)
-		if k := kind + "/" + r.Tr; nsamples[k] < 1 && len(rc.Samples) < 12 {
+		if k := kind + "/" + r.Tr; nsamples[k] < 1 && len(rc.Samples) < 9 {
 			nsamples[k]++
 			rc.Samples = append(rc.Samples, map[string]interface{}{"monitor": "detector-shim", "case": r.witness(rep)})
 		}
 	}
+	c10JudgeLife(rc, sh, distinct)
 	rc.addDistinct("nontrivial", int64(len(distinct)))
 	var ds []string
 	for k := range distinct {
@@ -802,4 +814,161 @@ func c10OvShape(ov string) string {
 		}
 	}
 	return strings.Join(out, "+")
+}
+
+// ---- lifetime agreement over operation sequences -----------------------------------------------------------
+
+// c10JudgeLife replays what the lifetime driver published, at the virtual instants it was published, into the
+// detector's own session code and compares, at every lookup that followed a station sweep, "the station still
+// serves the registration" with "the detector still diverts the client's flow".
+func c10JudgeLife(rc *RunCtx, sh *c10Shim, distinct map[string]bool) {
+	fh, err := os.Open(filepath.Join(rc.Work, "announce.0.out", "c10_life_records.jsonl"))
+	if err != nil {
+		rc.Errors = append(rc.Errors, fmt.Sprintf("C10: the lifetime driver left no records (%v)", err))
+		return
+	}
+	defer fh.Close()
+	var in bytes.Buffer
+	var looks []*c10Record
+	msgs := map[int][]*c10Record{} // sequence -> published messages (for the witness)
+	seqFam := map[int]string{}
+	sc := bufio.NewScanner(fh)
+	sc.Buffer(make([]byte, 1<<20), 16<<20)
+	for sc.Scan() {
+		r := &c10Record{}
+		if err := json.Unmarshal(sc.Bytes(), r); err != nil {
+			rc.Errors = append(rc.Errors, fmt.Sprintf("C10: unreadable lifetime record: %v", err))
+			return
+		}
+		switch r.T {
+		case "R":
+			in.WriteString("R\n")
+		case "A":
+			fmt.Fprintf(&in, "A\t%d\n", r.NS)
+		case "Q":
+			seqFam[r.Seq] = r.Fam
+			rc.addCount("life.sequences", 1)
+			rc.addCount("life.sequences_"+r.Fam, 1)
+		case "M":
+			in.WriteString(c10ShimLine(r))
+			in.WriteByte('\n')
+			if len(msgs[r.Seq]) < 12 {
+				msgs[r.Seq] = append(msgs[r.Seq], r)
+			}
+			rc.addCount("life.messages_replayed", 1)
+		case "U":
+			rc.Violations = append(rc.Violations, Violation{Sig: "undecodable:seq", Msg: "the published bytes are not a StationToDetector message", Stage: "announce", Mon: "lifetime-agreement", Detail: r.witness(nil)})
+		case "L":
+			f := []string{"L", strconv.Itoa(r.ID), "-", r.EPhantom, strconv.Itoa(int(r.EPort)), strconv.Itoa(c10Iana[r.TrProto])}
+			if r.EClient != "" {
+				f[2] = r.EClient
+			}
+			in.WriteString(strings.Join(f, "\t"))
+			in.WriteByte('\n')
+			looks = append(looks, r)
+		}
+	}
+	os.WriteFile(filepath.Join(rc.Work, "c10_life_shim.in"), in.Bytes(), 0o644)
+	cmd := exec.Command(sh.Bin)
+	cmd.Stdin = &in
+	var stdout, stderr bytes.Buffer
+	cmd.Stdout, cmd.Stderr = &stdout, &stderr
+	if err := cmd.Run(); err != nil {
+		rc.Errors = append(rc.Errors, fmt.Sprintf("C10: the detector shim failed on the lifetime records (infrastructure): %v\n%s", err, tail(stderr.String(), 1500)))
+		return
+	}
+	os.WriteFile(filepath.Join(rc.Work, "c10_life_shim.out"), stdout.Bytes(), 0o644)
+	replies := map[int]map[string]string{}
+	for _, l := range strings.Split(stdout.String(), "\n") {
+		if l == "" {
+			continue
+		}
+		m := map[string]string{}
+		for _, kv := range strings.Split(l, "\t") {
+			if i := strings.IndexByte(kv, '='); i > 0 {
+				m[kv[:i]] = kv[i+1:]
+			}
+		}
+		if id, err := strconv.Atoi(m["id"]); err == nil && m["lookup"] == "1" {
+			replies[id] = m
+		}
+	}
+	windowSeqs, windowSeqsFam := map[int]bool{}, map[string]int{}
+	nsample := 0
+	for _, r := range looks {
+		rep := replies[r.ID]
+		if rep == nil {
+			rc.Errors = append(rc.Errors, fmt.Sprintf("C10: the shim gave no reply for lookup %d", r.ID))
+			return
+		}
+		if rep["flow"] != "ok" {
+			rc.addCount("life.lookups_without_flow", 1)
+			continue
+		}
+		rc.addCount("evaluations", 1)
+		rc.addCount("life.lookups_judged", 1)
+		tracked := rep["tracked"] == "1"
+		if r.Window {
+			rc.addCount("life.lookups_in_critical_window", 1)
+			if !windowSeqs[r.Seq] {
+				windowSeqs[r.Seq] = true
+				windowSeqsFam[r.Fam]++
+			}
+		}
+		if r.State == "" {
+			r.State = "announced-under-another-registration" // same phantom and identifier as a registration delivered earlier
+		}
+		shape := "no-redelivery"
+		if r.HadDup {
+			shape = "after-redelivery"
+		}
+		distinct[fmt.Sprintf("lookup/%s/%s/station=%t/detector=%t/window=%t/%s", r.State, shape, r.Holds, tracked, r.Window, r.Fam)] = true
+		witness := func() map[string]interface{} {
+			var ms []interface{}
+			for _, m := range msgs[r.Seq] {
+				w := m.witness(nil)
+				delete(w, "case")
+				delete(w, "state")
+				ms = append(ms, w)
+			}
+			return map[string]interface{}{
+				"sequence": r.Ops, "family": r.Fam, "registration_index": r.Reg, "registration": r.Case, "virtual_time": time.Duration(r.VT).String(),
+				"state_announced_last": r.State, "since_that_announcement": time.Duration(r.AgeAnn).String(), "station_lifetime_for_state": time.Duration(r.ELife).String(),
+				"redelivered_since": r.HadDup, "since_last_redelivery": time.Duration(r.AgeDup).String(),
+				"station_serves_registration_after_sweep": r.Holds, "detector_diverts_flow": tracked, "detector_reply": rep,
+				"flow":                                  map[string]interface{}{"client": c10IPText(r.EClient), "phantom": c10IPText(r.EPhantom), "port": r.EPort, "ip_proto": c10Iana[r.TrProto]},
+				"everything_published_in_this_sequence": ms,
+			}
+		}
+		switch {
+		case r.Holds && !tracked:
+			rc.Violations = append(rc.Violations, Violation{Sig: "lifetime-agreement:station-serves-detector-dropped:" + r.State + ":" + shape,
+				Msg:   fmt.Sprintf("%v into the sequence the station (after its sweep) still serves the registration, but the detector, fed with everything the station published, no longer diverts its client's flow [%s]", time.Duration(r.VT), r.Ops),
+				Stage: "announce", Mon: "lifetime-agreement", Detail: witness()})
+		case r.Holds:
+			rc.addCount("life.lookups_station_serves_detector_diverts", 1)
+			if nsample < 2 && r.HadDup && len(rc.Samples) < 12 {
+				nsample++
+				rc.Samples = append(rc.Samples, map[string]interface{}{"monitor": "lifetime-agreement", "case": witness()})
+			}
+		case tracked:
+			rc.addCount("life.lookups_detector_outlives_station_harmless", 1)
+		default:
+			rc.addCount("life.lookups_both_gone", 1)
+			if nsample < 3 && r.Window && len(rc.Samples) < 12 {
+				nsample++
+				rc.Samples = append(rc.Samples, map[string]interface{}{"monitor": "lifetime-agreement", "case": witness()})
+			}
+		}
+	}
+	rc.addCount("life.sequences_with_redelivery_then_lookup_in_critical_window", int64(len(windowSeqs)))
+	for f, n := range windowSeqsFam {
+		rc.addCount("life.sequences_with_redelivery_then_lookup_in_critical_window_"+f, int64(n))
+	}
+	rc.addDistinct("life.sequences", rc.Counts["life.sequences"])
+	if len(windowSeqs) == 0 || rc.Counts["life.lookups_station_serves_detector_diverts"] == 0 {
+		if len(rc.Violations) == 0 {
+			rc.Errors = append(rc.Errors, "C10: the lifetime monitor never looked inside the critical window after a re-delivery (or never saw a served registration); it observed too little")
+		}
+	}
 }
